@@ -15,7 +15,8 @@ pub struct Cfg {
     pub scheme: Scheme,
     pub k: u16,
     pub parity: u16,
-    /// 0: one block, 1: two equal, 2: two unequal (k, k-1), 3: three blocks
+    /// 0: one block, 1: two equal, 2: two unequal (k, k-1), 3: three blocks, 4: five blocks,
+    /// 5: seven blocks of unequal size (large sessions: bounded number of losses instead of all subsets)
     pub shape: u8,
     pub interleave: u8,
     pub inband_fti: bool,
@@ -33,7 +34,9 @@ impl Cfg {
             0 => k * e - 1,
             1 => 2 * k * e - 1,
             2 => (2 * k - 1) * e - 1,
-            _ => 3 * k * e - 1,
+            3 => 3 * k * e - 1,
+            4 => 5 * k * e - 1,
+            _ => (7 * k - 3) * e - 1,
         }
     }
     pub fn rec_spec(&self) -> RecSpec {
@@ -246,6 +249,24 @@ fn configs(thorough: bool) -> Vec<Cfg> {
             }
         }
     }
+    // large sessions (30-50 packets): every pattern with a bounded number of lost packets
+    for scheme in ALL_SCHEMES {
+        let (k, parity) = match scheme {
+            Scheme::NoCode => (3u16, 0u16),
+            Scheme::Raptor => (4, 1),
+            _ => (3, 2),
+        };
+        for shape in [4u8, 5] {
+            if scheme == Scheme::Raptor && shape == 5 {
+                continue;
+            }
+            for interleave in [1u8, 3] {
+                for inband_fti in [true, false] {
+                    v.push(Cfg { scheme, k, parity, shape, interleave, inband_fti, count: 1 });
+                }
+            }
+        }
+    }
     v
 }
 
@@ -279,7 +300,41 @@ pub fn run(thorough: bool) -> i32 {
             let mut push = |key: String, what: String, mult: &[u8]| {
                 viol.entry(key).and_modify(|e| e.2 += 1).or_insert((what, Case { cfg: cfg.clone(), fdt: *fdt, mult: mult.to_vec() }, 1));
             };
-            if *mode == 0 {
+            if n > 16 {
+                // large session: all patterns with at most `maxl` losses (mode 0), or with one loss
+                // and one duplicate (mode 1)
+                let maxl = if thorough { 3 } else { 2 };
+                if *mode == 0 {
+                    let mut mult = vec![1u8; n];
+                    fn rec(p: &Prepared, fdt: FdtMode, mult: &mut Vec<u8>, from: usize, left: usize, g: &mut G, push: &mut dyn FnMut(String, String, &[u8])) {
+                        if let Some((k, w)) = run_pattern(p, fdt, mult, g) {
+                            push(k, w, mult);
+                        }
+                        if left == 0 {
+                            return;
+                        }
+                        for i in from..mult.len() {
+                            mult[i] = 0;
+                            rec(p, fdt, mult, i + 1, left - 1, g, push);
+                            mult[i] = 1;
+                        }
+                    }
+                    rec(&p, *fdt, &mut mult, 0, maxl, &mut g, &mut push);
+                } else {
+                    for l in 0..n {
+                        for d in 0..n {
+                            if l != d {
+                                let mut mult = vec![1u8; n];
+                                mult[l] = 0;
+                                mult[d] = 2;
+                                if let Some((k, w)) = run_pattern(&p, *fdt, &mult, &mut g) {
+                                    push(k, w, &mult);
+                                }
+                            }
+                        }
+                    }
+                }
+            } else if *mode == 0 {
                 // all 2^n subsets, fewest losses first within a mask order that starts from "nothing lost"
                 let full = (1u32 << n) - 1;
                 for lost in 0..=full {
@@ -342,7 +397,7 @@ pub fn run(thorough: bool) -> i32 {
     }
     rep.cov("evaluations", g.execs);
     rep.cov("distinct_nontrivial", g.recoverable);
-    rep.cov("rule", "for each recorded real session (scheme x (k,parity) x block shape x interleave x in-band/FDT-only OTI x transfer count): every one of the 2^n loss subsets of the n object packets, and every 3^n multiplicity vector (lost/once/twice, n <= dup bound), crossed with FDT delivered first / only after the object / never; a pattern is non-trivial when the harness's own RFC decode says every block keeps enough symbols and an FDT copy arrives (the property's premise); all patterns are distinct by construction");
+    rep.cov("rule", "for each recorded real session (scheme x (k,parity) x block shape x interleave x in-band/FDT-only OTI x transfer count): every one of the 2^n loss subsets of the n object packets, and every 3^n multiplicity vector (lost/once/twice, n <= dup bound); for the large sessions (5 and 7 blocks, 30-50 packets) every pattern with at most 2 (quick) / 3 (thorough) lost packets and every (one lost, one duplicated) pair; all crossed with FDT delivered first / only after the object / never; a pattern is non-trivial when the harness's own RFC decode says every block keeps enough symbols and an FDT copy arrives (the property's premise); all patterns are distinct by construction");
     rep.cov("exhaustive", true);
     rep.cov("configs", cfgs.len() as u64);
     rep.cov("max_object_packets", nmax_seen as u64);
